@@ -10,7 +10,7 @@ import itertools
 from mc.engine import e1
 from mc.engine.core import Collector, Result, Violation, permuted
 
-ALPHA = {"quick": [0, "", (), 1], "thorough": [0, "", (), 1, "a"]}
+ALPHA = {"quick": [0, "", (), 1], "thorough": [0, "", (), 1, "a", 2.5]}
 
 
 def _j(x):
